@@ -41,16 +41,17 @@ var depthLimits = []int{0, 1, 2, 3}
 var fieldLimits = []int{0, 1, 2, 4}
 
 type evalResult struct {
-	Accepted   bool
-	RejectMsg  string
-	Fails      []failure
-	Outcome    string
-	Executable bool
-	Depth      int
-	Fields     int
-	IndentSkip bool // indenting printer not judged because the compact one already failed
-	OverCount  int  // grid points where the limits rejected although my count is within the limits (never an alarm)
-	LimitRuns  int
+	Accepted             bool
+	RejectMsg            string
+	Fails                []failure
+	Outcome              string
+	Executable           bool
+	Depth                int
+	Fields               int
+	IndentSkip           bool // indenting printer not judged because the compact one already failed
+	BlockValuesNotJudged int
+	OverCount            int // grid points where the limits rejected although my count is within the limits (never an alarm)
+	LimitRuns            int
 }
 
 // panicSite returns the innermost frame of the code under test on the
@@ -289,6 +290,90 @@ func checkInside(doc *ast.Document, in string) (site, detail string) {
 	return "", ""
 }
 
+const siteBlockValue = "block string value handed out by the document (BlockStringValueContentBytes) vs BlockStringValue() of the spec"
+
+// checkBlockValues compares, for every block string *value* of the accepted
+// document, what the library hands out as its value with BlockStringValue()
+// of the spec computed by the check from the raw text between the delimiters
+// (the \""" escape is left alone on both sides). The raw text is located with
+// the check's own scanner; a string on whose extent the scanner and the lexer
+// disagree by more than white space is not judged.
+func checkBlockValues(doc *ast.Document, in string) (bad, kind string, notJudged int) {
+	var toks []tok
+	for i := range doc.StringValues {
+		sv := doc.StringValues[i]
+		if !sv.BlockString {
+			continue
+		}
+		if toks == nil {
+			toks = scan(in)
+		}
+		cs, ce := int(sv.Content.Start), int(sv.Content.End)
+		if cs > ce || ce > len(in) {
+			notJudged++
+			continue
+		}
+		var inner string
+		found := false
+		for _, t := range toks {
+			if t.kind != tkBlockString || cs < t.start+3 || cs > t.end {
+				continue
+			}
+			if len(t.text) < 6 || !strings.HasSuffix(t.text, `"""`) || ce > t.end-3 {
+				break
+			}
+			if strings.Trim(in[t.start+3:cs], " \t\r\n") != "" || strings.Trim(in[ce:t.end-3], " \t\r\n") != "" {
+				break
+			}
+			inner, found = in[t.start+3:t.end-3], true
+			break
+		}
+		if !found {
+			notJudged++
+			continue
+		}
+		want := blockStringValueNoUnescape([]byte(inner))
+		got, perr := func() (v string, perr string) {
+			defer func() {
+				if p := recover(); p != nil {
+					perr = fmt.Sprint(p)
+				}
+			}()
+			return string(doc.BlockStringValueContentBytes(i)), ""
+		}()
+		if perr != "" {
+			return fmt.Sprintf("BlockStringValueContentBytes panics on the block string %q: %s", inner, perr), "panic", notJudged
+		}
+		if got != want && bad == "" {
+			kind = blockValueDiffKind(want, got)
+			bad = fmt.Sprintf("the block string with raw text %q has the value %q, the document hands out %q", inner, want, got)
+		}
+	}
+	return bad, kind, notJudged
+}
+
+// blockValueDiffKind names the kind of deviation; it is part of the site, so
+// that shrinking keeps the kind (a deviation of one kind cannot be shrunk into
+// an input that shows a deviation of another kind).
+func blockValueDiffKind(want, got string) string {
+	if want == "" && strings.Trim(got, " \t\r\n") == "" {
+		return "white-space-only string not emptied"
+	}
+	wl, gl := strings.Split(want, "\n"), strings.Split(got, "\n")
+	if len(wl) == len(gl) {
+		same := true
+		for i := range wl {
+			if strings.TrimLeft(wl[i], " \t") != strings.TrimLeft(gl[i], " \t") {
+				same = false
+			}
+		}
+		if same {
+			return "leading white space of lines differs"
+		}
+	}
+	return "other difference"
+}
+
 // ---- my own count of selection depth and fields (weakest reading: per
 // definition, no fragment expansion)
 
@@ -348,36 +433,44 @@ func (s rtStage) String() string {
 	return [...]string{"ok", "print fails", "print does not re-parse", "re-parsed document differs", "second print differs"}[s]
 }
 
-func roundTrip(doc *ast.Document, shape string, indent bool) (stage rtStage, site, detail string) {
+// rtFinding is one failed stage of the round trip through one printer.
+type rtFinding struct {
+	stage        rtStage
+	site, detail string
+}
+
+// roundTrip runs parse-print-parse-print through one printer. The structural
+// comparison and the textual fixed point print(parse(print(d))) == print(d) are
+// judged independently of each other for every document whose first print
+// re-parses; the fixed point is compared byte for byte.
+func roundTrip(doc *ast.Document, shape string, indent bool) (out []rtFinding) {
 	p1 := printDoc(doc, indent)
 	if p1.panicked {
-		return rtPrintFails, "printer panics in " + p1.site, "printer panic: " + p1.pclass
+		return []rtFinding{{rtPrintFails, "printer panics in " + p1.site, "printer panic: " + p1.pclass}}
 	}
 	if p1.err != nil {
-		return rtPrintFails, "printer returns an error", p1.err.Error()
+		return []rtFinding{{rtPrintFails, "printer returns an error", p1.err.Error()}}
 	}
 	d2 := parse(p1.s)
 	if d2.panicked {
-		return rtNoReparse, "", fmt.Sprintf("print %q makes the parser panic in %s: %s", p1.s, d2.site, d2.pclass)
+		return []rtFinding{{rtNoReparse, "", fmt.Sprintf("print %q makes the parser panic in %s: %s", p1.s, d2.site, d2.pclass)}}
 	}
 	if !d2.ok {
-		return rtNoReparse, "", fmt.Sprintf("print %q is rejected: %s", p1.s, clip(d2.msg, 160))
+		return []rtFinding{{rtNoReparse, "", fmt.Sprintf("print %q is rejected: %s", p1.s, clip(d2.msg, 160))}}
 	}
 	sh2, perr := safeShape(d2.doc)
 	if perr != "" {
-		return rtShapeDiffers, "", fmt.Sprintf("print %q re-parses to a document with dangling references (%s)", p1.s, perr)
-	}
-	if sh2 != shape {
-		return rtShapeDiffers, "", fmt.Sprintf("print %q re-parses to\n      %s   instead of\n      %s", p1.s, strings.TrimSpace(sh2), strings.TrimSpace(shape))
+		out = append(out, rtFinding{rtShapeDiffers, "", fmt.Sprintf("print %q re-parses to a document with dangling references (%s)", p1.s, perr)})
+	} else if sh2 != shape {
+		out = append(out, rtFinding{rtShapeDiffers, "", fmt.Sprintf("print %q re-parses to\n      %s   instead of\n      %s", p1.s, strings.TrimSpace(sh2), strings.TrimSpace(shape))})
 	}
 	p2 := printDoc(d2.doc, indent)
 	if p2.panicked || p2.err != nil {
-		return rtNotFixed, "", fmt.Sprintf("first print %q, printing its parse fails (%v %s)", p1.s, p2.err, p2.pclass)
+		out = append(out, rtFinding{rtNotFixed, "", fmt.Sprintf("first print %q, printing its parse fails (%v %s)", p1.s, p2.err, p2.pclass)})
+	} else if p2.s != p1.s {
+		out = append(out, rtFinding{rtNotFixed, "", fmt.Sprintf("first print %q, second print %q", p1.s, p2.s)})
 	}
-	if p2.s != p1.s {
-		return rtNotFixed, "", fmt.Sprintf("first print %q, second print %q", p1.s, p2.s)
-	}
-	return rtOK, "", ""
+	return out
 }
 
 func rtFailure(stage rtStage, printer, site, detail string) failure {
@@ -452,6 +545,16 @@ func evaluate(in string, mask int) (res evalResult) {
 		sites = append(sites, site)
 	}
 
+	// block string values handed out by the document vs BlockStringValue() of the spec
+	if mask&mInside != 0 {
+		bad, kind, nj := checkBlockValues(doc, in)
+		res.BlockValuesNotJudged = nj
+		if bad != "" {
+			res.Fails = append(res.Fails, failure{clauseInside, siteBlockValue + ": " + kind, fmt.Sprintf("input %q: %s", in, bad)})
+			sites = append(sites, "blockvalue")
+		}
+	}
+
 	// shape
 	shape, perr := safeShape(doc)
 	if perr != "" {
@@ -460,23 +563,31 @@ func evaluate(in string, mask int) (res evalResult) {
 		return res
 	}
 
-	// round trip, compact printer first; the indenting printer is judged only when the compact one is clean
-	st, site, detail := rtOK, "", ""
+	// round trip. Both printers are always run. A failure of the indenting
+	// printer is reported only when the compact printer does not fail the same
+	// part (structure: print / re-parse / shape; text: fixed point), so that a
+	// defect common to both printers has one fingerprint.
 	if mask&mRT != 0 {
 		wdStage(1)
-		st, site, detail = roundTrip(doc, shape, false)
-	}
-	if mask&mRT == 0 {
-	} else if st != rtOK {
-		f := rtFailure(st, "compact printer", site, fmt.Sprintf("input %q: %s", in, detail))
-		res.Fails = append(res.Fails, f)
-		sites = append(sites, f.Site)
-		res.IndentSkip = true
-	} else {
+		compact := roundTrip(doc, shape, false)
+		cStruct, cFixed := false, false
+		for _, r := range compact {
+			f := rtFailure(r.stage, "compact printer", r.site, fmt.Sprintf("input %q: %s", in, r.detail))
+			res.Fails = append(res.Fails, f)
+			sites = append(sites, f.Site)
+			if r.stage == rtNotFixed {
+				cFixed = true
+			} else {
+				cStruct = true
+			}
+		}
 		wdStage(2)
-		st, site, detail = roundTrip(doc, shape, true)
-		if st != rtOK {
-			f := rtFailure(st, "indenting printer only", site, fmt.Sprintf("input %q: %s", in, detail))
+		for _, r := range roundTrip(doc, shape, true) {
+			if (r.stage == rtNotFixed && cFixed) || (r.stage != rtNotFixed && cStruct) {
+				res.IndentSkip = true
+				continue
+			}
+			f := rtFailure(r.stage, "indenting printer only", r.site, fmt.Sprintf("input %q: %s", in, r.detail))
 			res.Fails = append(res.Fails, f)
 			sites = append(sites, f.Site)
 		}
